@@ -314,7 +314,7 @@ func c18LineTerm(c *core.Ctx, r *core.Reporter) {
 					return true
 				}
 				fo := core.CalleeObj(p.TypesInfo, call)
-				if fo == nil || fo.Pkg() == nil || fo.Pkg().Path() != "regexp" || fo.Name() != "MustCompile" {
+				if fo == nil || fo.Pkg() == nil || fo.Pkg().Path() != "regexp" || core.N(fo) != "MustCompile" {
 					return true
 				}
 				s := constString(p.TypesInfo, call.Args[0])
@@ -438,7 +438,7 @@ func c03LineTermScan(c *core.Ctx, r *core.Reporter) {
 					}
 					search := false
 					for _, pre := range []string{"Index", "LastIndex", "Split", "Contains", "Count", "Cut", "Trim", "Fields", "HasSuffix", "HasPrefix"} {
-						if strings.HasPrefix(fo.Name(), pre) {
+						if strings.HasPrefix(core.N(fo), pre) {
 							search = true
 						}
 					}
@@ -462,7 +462,7 @@ func c03LineTermScan(c *core.Ctx, r *core.Reporter) {
 						if lf != cr {
 							fn := enclosingFuncName(stack)
 							per[fn]++
-							r.Bad(fmt.Sprintf("%s/search#%d", fn, per[fn]), x.Pos(), "%s searches request text with %s.%s for only one of LF / CR: a line (a comment, a quoted source line) that ends in the other terminator is not seen to end — text after a bare CR is swallowed or wrongly rejected", fn, fo.Pkg().Name(), fo.Name())
+							r.Bad(fmt.Sprintf("%s/search#%d", fn, per[fn]), x.Pos(), "%s searches request text with %s.%s for only one of LF / CR: a line (a comment, a quoted source line) that ends in the other terminator is not seen to end — text after a bare CR is swallowed or wrongly rejected", fn, fo.Pkg().Name(), core.N(fo))
 						}
 					}
 				}
@@ -500,7 +500,7 @@ func c18Column(c *core.Ctx, r *core.Reporter) {
 	core.Instrs(fn, func(in ssa.Instruction) {
 		if st, ok := in.(*ssa.Store); ok {
 			if fa, ok := st.Addr.(*ssa.FieldAddr); ok {
-				if f := core.FieldOf(fa); f != nil && f.Name() == "Column" {
+				if f := core.FieldOf(fa); f != nil && core.N(f) == "Column" {
 					colVals = append(colVals, st.Val)
 				}
 			}
@@ -572,17 +572,17 @@ func c18PathOwn(c *core.Ctx, r *core.Reporter) {
 	per := map[string]int{}
 	for _, fn := range c.LibFuncs() {
 		for _, w := range core.WritesIn(fn) {
-			if w.Owner == nil || w.Owner.Obj().Name() != "ResponsePath" {
+			if w.Owner == nil || core.N(w.Owner.Obj()) != "ResponsePath" {
 				continue
 			}
 			n++
 			name := fnKey(fn)
 			per[name]++
-			key := fmt.Sprintf("%s/ResponsePath.%s#%d", name, w.Field.Name(), per[name])
+			key := fmt.Sprintf("%s/ResponsePath.%s#%d", name, core.N(w.Field), per[name])
 			if w.Fresh {
 				r.OK(key, w.In.Pos(), "store into a node allocated by %s itself", name)
 			} else {
-				r.Bad(key, w.In.Pos(), "%s stores into field %s of an existing ResponsePath node: path nodes are shared by all fields below them, so path slices handed to errors alias each other (a later sibling's key overwrites the last element of an already recorded error path) and concurrent siblings race on the node", name, w.Field.Name())
+				r.Bad(key, w.In.Pos(), "%s stores into field %s of an existing ResponsePath node: path nodes are shared by all fields below them, so path slices handed to errors alias each other (a later sibling's key overwrites the last element of an already recorded error path) and concurrent siblings race on the node", name, core.N(w.Field))
 			}
 		}
 	}
